@@ -98,7 +98,8 @@ def run(facts, tier):
     retain = [bi for bi, n in calls if n.endswith("Vec::<T, A>::retain")]
     checks = [
         ("own declarations first", bool(own) and all(own[0] in dom[p] for p in push)),
-        ("implicit xml binding", "xml_info::XmlNamespace::xml" in fam_calls and any(_flows_into_push(g, "XmlNamespace::xml") for g in fam)),
+        ("implicit xml binding", "xml_info::XmlNamespace::xml" in fam_calls and (any(_flows_into_push(g, "XmlNamespace::xml") for g in fam) or
+                                                                                     any(_flows_into_pushing_helper(facts, g, fam, "XmlNamespace::xml") for g in fam))),
         ("inherits from the parent", any(n.endswith("Element::in_scope_namespace") or n == f["path"] for n in fam_calls)),
         ("empty URIs dropped after merging", bool(retain) and not any(p in e1_reach(succ, retain[0]) for p in push)),
     ]
@@ -112,8 +113,12 @@ def run(facts, tier):
                         any(m.get("k") == "Binary" and m.get("op") == "==" for m in walk(c["body"])):
                     return True
         return False
-    pushes = [n for n in walk(f["body"]) if n.get("k") == "MethodCall" and n["m"] == "push"]
-    guarded = [n for n in pushes if any(i.get("k") == "If" and shadow_test(i["cond"]) and any(m is n for m in walk(i["then"])) for i in walk(f["body"]))]
+    # .. in the function or in the private pieces it hands the work to
+    pushes, guarded = [], []
+    for g in fam:
+        ps = [n for n in walk(g["body"]) if n.get("k") == "MethodCall" and n["m"] == "push"]
+        pushes += ps
+        guarded += [n for n in ps if any(i.get("k") == "If" and shadow_test(i["cond"]) and any(m is n for m in walk(i["then"])) for i in walk(g["body"]))]
     checks.append(("inherited and implicit bindings are shadowed by prefix", bool(pushes) and len(guarded) == len(pushes)))
     # the retain closure drops empty namespace names
     empties = any("is_empty" in [facts.callee_name(t["callee"]).split("::")[-1] for _, t in facts.mir_calls(c) if t.get("callee")] for c in clos)
@@ -230,6 +235,29 @@ def _flows_into_push(f, ctor_suffix):
                 return True
             if a.get("k") == "Call" and str(a["f"].get("path", "")).endswith(ctor_suffix):
                 return True
+    return False
+
+
+def _flows_into_pushing_helper(facts, f, fam, ctor_suffix):
+    """.. or is handed to a private piece of the function that pushes that parameter (`push_unless_declared(&mut items, ns)`)"""
+    lids = set()
+    for n in walk(f["body"]):
+        if n.get("s") == "Let" and isinstance(n.get("init"), dict) and n["init"].get("k") == "Call" and \
+                str(n["init"]["f"].get("path", "")).endswith(ctor_suffix):
+            for q in walk(n["pat"]):
+                if q.get("p") == "Bind":
+                    lids.add(q["lid"])
+    famids = {g["id"]: g for g in fam if g["id"] != f["id"]}
+    for n in walk(f["body"]):
+        if n.get("k") == "Call" and (n["f"].get("rid") or n["f"].get("id")) in famids:
+            h = famids[n["f"].get("rid") or n["f"].get("id")]
+            for i, a in enumerate(n.get("args", [])):
+                hit = (a.get("k") == "Path" and a.get("lid") in lids) or (a.get("k") == "Call" and str(a["f"].get("path", "")).endswith(ctor_suffix))
+                if hit and i < len(h.get("params", [])):
+                    plid = h["params"][i].get("lid")
+                    if any(m.get("k") == "MethodCall" and m["m"] == "push" and m.get("args") and m["args"][0].get("k") == "Path"
+                           and m["args"][0].get("lid") == plid for m in walk(h["body"])):
+                        return True
     return False
 
 
